@@ -490,7 +490,12 @@ ENTRIES += [
     M("C15-mc-mean-components", "C15", "C15.2", (DMC, "        return jnp.sum(jnp.stack(logps, axis=-1), axis=-1)", "        return jnp.mean(jnp.stack(logps, axis=-1), axis=-1)")),
     M("C15-mc-value0", "C15", "C15.2", (DMC, "d.log_prob(value_arr[..., i]) for i, d in enumerate(self.distribution)", "d.log_prob(value_arr[..., 0]) for i, d in enumerate(self.distribution)")),
     M("C15-mc-entropy-first", "C15", "C15.2", (DMC, "        return jnp.sum(jnp.stack(ents, axis=-1), axis=-1)", "        return jnp.stack(ents, axis=-1)[..., 0]")),
-    M("C15-mc-salp-two-calls", "C15", "C15.2", (DMC, "        samples = jnp.stack(tuple(p[0] for p in pairs), axis=-1)", "        samples = jnp.stack(tuple(d.sample(k) for d, k in zip(self.distribution, keys)), axis=-1)")),
+    M("C15-mc-salp-scores-other-draws", "C15", "C15.2", (DMC, "        logps = tuple(d.log_prob(x) for d, x in zip(self.distribution, draws))", "        logps = tuple(d.log_prob(x) for d, x in zip(self.distribution, reversed(draws)))")),
+    V("C15-v-mc-salp-fused-component-calls", ["C15", "C16", "C04"], (DMC, "        draws = tuple(categorical_sample(d, k) for d, k in zip(self.distribution, keys))\n        samples = jnp.stack(draws, axis=-1)\n        logps = tuple(d.log_prob(x) for d, x in zip(self.distribution, draws))\n        return samples, jnp.sum(jnp.stack(logps, axis=-1), axis=-1)",
+      "        draws = [categorical_sample(d, k) for d, k in zip(self.distribution, keys)]\n        logps = [d.log_prob(x) for d, x in zip(self.distribution, draws)]\n        return jnp.stack(draws, axis=-1), jnp.sum(jnp.stack(logps, axis=-1), axis=-1)")),
+    M("C15-categorical-mode-through-library", ["C15", "C16"], ["C15.7", "C16.8"], ("lerax/distribution/categorical.py", "        return categorical_mode(self.distribution)", "        return self.distribution.mode()")),
+    M("C15-mc-sample-through-library", ["C15", "C16"], ["C15.7", "C16.8"], (DMC, "        samples = tuple(\n            categorical_sample(d, k) for d, k in zip(self.distribution, keys)\n        )", "        samples = tuple(d.sample(k) for d, k in zip(self.distribution, keys))")),
+    M("C15-categorical-sample-other-law", ["C15", "C16", "C04"], ["C15.1", "C16.6", "C04.12"], ("lerax/distribution/categorical.py", "    draws = jr.categorical(key, distribution.logits, axis=-1)", "    draws = jr.categorical(key, distribution.probs, axis=-1)")),
     M("C15-mc-split-full", "C15", "C15.2", (DMC, "split_idx = [sum(action_dims[: i + 1]) for i in range(len(action_dims) - 1)]", "split_idx = [sum(action_dims[: i + 1]) for i in range(len(action_dims))]")),
     M("C15-mc-split-axis0", "C15", "C15.2", (DMC, "pieces = tuple(jnp.split(arr, split_idx, axis=-1))", "pieces = tuple(jnp.split(arr, split_idx, axis=0))")),
     M("C15-scale-sign", "C15", "C15.3", (DSN, "affine = bijectors.ScalarAffine(scale=(high - low), shift=low)", "affine = bijectors.ScalarAffine(scale=(low - high), shift=low)")),
